@@ -305,11 +305,36 @@ pub fn check(mut ctx: Ctx, replay: Option<J>) -> ! {
   }
   ctx.cov("example_models_available", json!(models.len()));
   if quick && replay.is_none() {
-    // 16 models spread over the size range (below 40 kB)
+    // the first model (by path, with test contexts, below 40 kB) showing each structural feature, plus models spread over the size range
+    models.sort_by(|a, b| a.path.cmp(&b.path));
+    let features: [&dyn Fn(&Model) -> bool; 9] = [
+      &|m| m.xml.matches("<output ").count() >= 2 && m.xml.contains("<decisionTable"),
+      &|m| m.xml.contains("isCollection=\"true\""),
+      &|m| m.xml.contains("<decisionService"),
+      &|m| m.xml.contains("<invocation"),
+      &|m| m.xml.contains("<context>") || m.xml.contains("<context "),
+      &|m| m.xml.contains("<relation") || m.xml.contains("<list"),
+      &|m| m.xml.contains("<functionDefinition"),
+      &|m| m.xml.contains("<itemComponent"),
+      &|m| m.xml.contains("<knowledgeRequirement") && m.xml.contains("<businessKnowledgeModel"),
+    ];
+    let mut chosen: Vec<String> = vec![];
+    for f in features {
+      if let Some(m) = models.iter().find(|m| m.xml.len() < 40_000 && m.ctxs.len() > 1 && f(m)) {
+        if !chosen.contains(&m.path) {
+          chosen.push(m.path.clone());
+        }
+      }
+    }
     models.sort_by_key(|m| m.xml.len());
-    let small: Vec<Model> = models.into_iter().filter(|m| m.xml.len() < 40_000).collect();
-    let step = (small.len() / 16).max(1);
-    models = small.into_iter().step_by(step).take(16).collect();
+    let small: Vec<&Model> = models.iter().filter(|m| m.xml.len() < 40_000).collect();
+    let step = (small.len() / 10).max(1);
+    for m in small.into_iter().step_by(step).take(10) {
+      if !chosen.contains(&m.path) {
+        chosen.push(m.path.clone());
+      }
+    }
+    models.retain(|m| chosen.contains(&m.path));
   }
   models.sort_by(|a, b| a.path.cmp(&b.path));
   let trees: Vec<J> = models.iter().map(|m| json!({"model": m.path, "nodes": m.nodes.iter().enumerate().map(|(i, n)| json!({"k": n.kind.to_string(), "d": n.depth, "nm": n.name, "ref": n.is_ref, "last": last(&m.nodes, i) + 1})).collect::<Vec<_>>()})).collect();
